@@ -367,11 +367,13 @@ def rule_r3(ctx) -> List[R.Inst]:
         def _start_range(it):
             """the range the chunk starts run over: range(..) itself, or a local bound to range(..) and then only narrowed by
             `name = [v for v in name if <test>]` (a filter keeps starts, it cannot add or move one)"""
-            if isinstance(it, ast.Call) and call_name(it) == "range" and len(it.args) == 1:
+            def _r(c):
+                return isinstance(c, ast.Call) and call_name(c) == "range" and (len(c.args) == 1 or (len(c.args) == 2 and unparse(c.args[0]) == "0"))
+            if _r(it):
                 return it
             if isinstance(it, ast.Name):
                 ds = local_defs(fn.node, it.id)
-                rng = [d for d in ds if isinstance(d, ast.Call) and call_name(d) == "range" and len(d.args) == 1]
+                rng = [d for d in ds if _r(d)]
                 rest = [d for d in ds if d not in rng]
                 if len(rng) == 1 and all(isinstance(d, (ast.ListComp, ast.GeneratorExp)) and len(d.generators) == 1 and
                                          isinstance(d.generators[0].target, ast.Name) and isinstance(d.elt, ast.Name) and
